@@ -438,12 +438,16 @@ func ruleFilterReapply(c *eng.Ctx) {
 		return
 	}
 	for _, seq := range seqs {
-		last := ""
-		if len(seq) > 0 {
-			last = seq[len(seq)-1]
+		filt, lastBase := -1, -1
+		for i, e := range seq {
+			if e == "newFilteredFetcher(top)" {
+				filt = i
+			} else if !strings.HasSuffix(e, "(top)") || e == "newMultiFetcher(top)" {
+				lastBase = i
+			}
 		}
-		c.Check(last == "newFilteredFetcher(top)", rule, "Start:filter-present:stack("+strings.Join(seq, " > ")+")", pos,
-			"filtered fetcher is the outermost layer", "with a filter present the outermost fetcher is "+last+", not the filtered fetcher: documents that do not match the filter can be returned when the layer below over-approximates (index iterators do)")
+		c.Check(filt > lastBase, rule, "Start:filter-present:stack("+strings.Join(seq, " > ")+")", pos,
+			"the filtered fetcher wraps every document source of the stack", "with a filter present the fetcher stack is ["+strings.Join(seq, " > ")+"]: a document source is not below the filtered fetcher, so documents that do not match the filter can be returned when that source over-approximates (index iterators do)")
 	}
 	c.Floor(rule, len(seqs), 2)
 }
